@@ -3,6 +3,8 @@
    Rust implementation executes between calls of thread::switch().  No proofs in this file. *)
 From Coq Require Import List NArith Bool Arith.
 From SV Require Import Clock.VClock Prim.Objects Prim.Atomic Engine.Exec.
+From SV Require Export Lang.Code.
+From SV Require Import Prim.Semaphore Lang.SyncOps.
 Import ListNotations.
 
 Inductive op :=
@@ -15,24 +17,27 @@ Inductive op :=
 | PRand                            (* one u64 from shuttle::rand *)
 | PAtomic (a : nat) (o : aop)      (* AtomicU64 operation on object a *)
 | PResetSteps                      (* current::reset_step_count *)
-| PPanic.                          (* panic!() *)
+| PPanic                           (* panic!() *)
+| PSemAcq (s : nat) (n : N)        (* BatchSemaphore::acquire_blocking(n) *)
+| PSemTry (s : nat) (n : N)        (* try_acquire(n) *)
+| PSemRel (s : nat) (n : N)        (* release(n) *)
+| PSemClose (s : nat)              (* close() *)
+| PSemAvail (s : nat)              (* available_permits(), is_closed() *)
+| PLock (m : nat)                  (* Mutex::lock; the guard is kept by the task *)
+| PTryLock (m : nat)
+| PUnlock (m : nat)                (* drop of the most recent guard of m held by this task *)
+| PRwLock (r : nat) (write : bool) (* RwLock::read / write *)
+| PRwTry (r : nat) (write : bool)
+| PRwUnlock (r : nat).             (* drop of the most recent guard of r held by this task *)
 
 (* result tags used in EvOp records; the harness prints the same numbers *)
 Definition TAG_SPAWN : N := 1.  Definition TAG_JOIN : N := 2.   Definition TAG_YIELD : N := 3.
 Definition TAG_PARK : N := 4.   Definition TAG_UNPARK : N := 5. Definition TAG_RAND : N := 6.
 Definition TAG_ATOMIC : N := 7. Definition TAG_RESET : N := 8. Definition TAG_END : N := 9.
-
-Definition b2n (b : bool) : N := if b then 1%N else 0%N.
-Definition ans_bool (a : list N) : bool := match a with (1%N :: _) => true | _ => false end.
-
-
-(* small combinators over the call trees *)
-Definition atomic_u (f : exec -> store -> option (exec * store)) (k : code) : code :=
-  Atomic (fun e s => match f e s with Some (e', s') => Some (e', s', []) | None => None end) (fun _ => k).
-Definition atomic_b (f : exec -> store -> option (exec * store * bool)) (k : bool -> code) : code :=
-  Atomic (fun e s => match f e s with Some (e', s', b) => Some (e', s', [b2n b]) | None => None end)
-         (fun a => k (ans_bool a)).
-Definition switch_if (b : bool) (k : code) : code := if b then Switch k else k.
+Definition TAG_SEMACQ : N := 10. Definition TAG_SEMTRY : N := 11. Definition TAG_SEMREL : N := 12.
+Definition TAG_SEMCLOSE : N := 13. Definition TAG_SEMAVAIL : N := 14.
+Definition TAG_LOCK : N := 15. Definition TAG_TRYLOCK : N := 16. Definition TAG_UNLOCK : N := 17.
+Definition TAG_RWLOCK : N := 18. Definition TAG_RWTRY : N := 19. Definition TAG_RWUNLOCK : N := 20.
 
 (* ---- thread_fn epilogue (shuttle-engine/src/thread_support.rs) ---- *)
 Definition thread_epilogue : code :=
@@ -120,32 +125,77 @@ Definition atomic_code (a : nat) (ty : aty) (o : aop) (k : bool -> N -> code) : 
 (* ---- whole programs ---- *)
 Definition nth_handle (hs : list nat) (h : nat) : option nat := nth_error hs h.
 
+(* guards held by a task: (object, write?) newest first; `kinds` tells mutex guards from rwlock guards *)
+Fixpoint take_guard (o : nat) (gs : list (nat * bool)) : option (bool * list (nat * bool)) :=
+  match gs with
+  | [] => None
+  | (o', w) :: r => if Nat.eqb o o' then Some (w, r)
+                    else match take_guard o r with Some (w', r') => Some (w', (o', w) :: r') | None => None end
+  end.
+
+(* guards still held when the body returns are dropped newest first; the object decides which guard it is *)
+Fixpoint drop_guards (gs : list (nat * bool)) (k : code) : code :=
+  match gs with
+  | [] => k
+  | (o, w) :: r =>
+    Atomic (fun e st => match get_obj st o with
+                        | Some (OMutex _ _ _) => Some (e, st, [0%N])
+                        | Some (ORwLock _ _ _ _) => Some (e, st, [1%N])
+                        | _ => None end)
+      (fun a => match a with
+                | [0%N] => mutex_unlock_code o (drop_guards r k)
+                | _ => rw_unlock_code o w (drop_guards r k)
+                end)
+  end.
+
 Fixpoint comp (fuel : nat) (bodies : list (list op)) (b : nat) : code :=
   match fuel with
   | O => Ret
   | S f =>
-    (fix go (ops : list op) (hs : list nat) (js : list nat) : code :=
+    (fix go (ops : list op) (hs : list nat) (js : list nat) (gs : list (nat * bool)) : code :=
        match ops with
-       | [] => Log TAG_END [] thread_epilogue
+       | [] => Log TAG_END [] (drop_guards gs thread_epilogue)
        | o :: r =>
          match o with
-         | PSpawn j => Switch (SpawnNow (comp f bodies j) (fun tid => Log TAG_SPAWN [N.of_nat tid] (go r (hs ++ [tid]) js)))
+         | PSpawn j => Switch (SpawnNow (comp f bodies j) (fun tid => Log TAG_SPAWN [N.of_nat tid] (go r (hs ++ [tid]) js gs)))
          | PJoin h => match nth_handle hs h with
                       | Some t => if existsb (Nat.eqb h) js then Panic      (* the JoinHandle was consumed *)
-                                  else join_code t (Log TAG_JOIN [N.of_nat t] (go r hs (h :: js)))
+                                  else join_code t (Log TAG_JOIN [N.of_nat t] (go r hs (h :: js) gs))
                       | None => Panic end
-         | PYield => yield_code (Log TAG_YIELD [] (go r hs js))
-         | PPark => park_code (Log TAG_PARK [] (go r hs js))
+         | PYield => yield_code (Log TAG_YIELD [] (go r hs js gs))
+         | PPark => park_code (Log TAG_PARK [] (go r hs js gs))
          | PUnparkH h => match nth_handle hs h with
-                         | Some t => unpark_code t (Log TAG_UNPARK [N.of_nat t] (go r hs js))
+                         | Some t => unpark_code t (Log TAG_UNPARK [N.of_nat t] (go r hs js gs))
                          | None => Panic end
-         | PUnparkT t => unpark_code t (Log TAG_UNPARK [N.of_nat t] (go r hs js))
-         | PRand => Rand (fun v => Log TAG_RAND [v] (go r hs js))
-         | PAtomic a o => atomic_code a u64 o (fun okf ret => Log TAG_ATOMIC [b2n okf; ret] (go r hs js))
-         | PResetSteps => atomic_u (fun e s => Some (e_reset_step_count e, s)) (Log TAG_RESET [] (go r hs js))
-         | PPanic => Panic
+         | PUnparkT t => unpark_code t (Log TAG_UNPARK [N.of_nat t] (go r hs js gs))
+         | PRand => Rand (fun v => Log TAG_RAND [v] (go r hs js gs))
+         | PAtomic a o => atomic_code a u64 o (fun okf ret => Log TAG_ATOMIC [b2n okf; ret] (go r hs js gs))
+         | PResetSteps => atomic_u (fun e s => Some (e_reset_step_count e, s)) (Log TAG_RESET [] (go r hs js gs))
+         | PPanic => atomic_u (fun e st => Some (with_panicking e true, st)) (drop_guards gs Panic)   (* unwinding drops the guards *)
+         | PSemAcq o n => acquire_blocking o n (fun ok => Log TAG_SEMACQ [b2n ok] (go r hs js gs))
+         | PSemTry o n => sem_try_code o n (fun res => Log TAG_SEMTRY [n_of_acq res] (go r hs js gs))
+         | PSemRel o n => sem_release_code o n (Log TAG_SEMREL [] (go r hs js gs))
+         | PSemClose o => sem_close_code o (Log TAG_SEMCLOSE [] (go r hs js gs))
+         | PSemAvail o => Atomic (fun e st => match get_obj st o with
+                                              | Some ob => match sem_of ob with
+                                                           | Some sm => Some (e, st, [sm_avail sm; b2n (sm_closed sm)])
+                                                           | None => None end
+                                              | None => None end)
+                                 (fun a => Log TAG_SEMAVAIL a (go r hs js gs))
+         | PLock o => mutex_lock_code o (fun res => Log TAG_LOCK [n_of_lock res] (go r hs js ((o, false) :: gs)))
+         | PTryLock o => mutex_try_lock_code o (fun res => Log TAG_TRYLOCK [n_of_lock res]
+                            (go r hs js (match res with LkWouldBlock => gs | _ => (o, false) :: gs end)))
+         | PUnlock o => match take_guard o gs with
+                        | Some (_, gs') => mutex_unlock_code o (Log TAG_UNLOCK [] (go r hs js gs'))
+                        | None => Panic end
+         | PRwLock o w => rw_lock_code o w (fun res => Log TAG_RWLOCK [b2n w; n_of_lock res] (go r hs js ((o, w) :: gs)))
+         | PRwTry o w => rw_try_code o w (fun res => Log TAG_RWTRY [b2n w; n_of_lock res]
+                            (go r hs js (match res with LkWouldBlock => gs | _ => (o, w) :: gs end)))
+         | PRwUnlock o => match take_guard o gs with
+                          | Some (w, gs') => rw_unlock_code o w (Log TAG_RWUNLOCK [b2n w] (go r hs js gs'))
+                          | None => Panic end
          end
-       end) (nth b bodies []) [] []
+       end) (nth b bodies []) [] [] []
   end.
 
 Definition compile (bodies : list (list op)) : code := comp (S (length bodies)) bodies 0.
